@@ -5,7 +5,7 @@
 # and that (5) the demonstration passes without the change.  Prints CONFIRMED or REJECTED with the reason.
 set -u
 DIR="$(readlink -f "$1")"; NAME="$2"
-WT=/tmp/wt/confirm
+WT="${CONFIRM_WT:-/tmp/wt/confirm}"
 export CARGO_NET_OFFLINE=true
 if [ ! -d "$WT" ]; then git -C /repo worktree add --detach "$WT" HEAD >/dev/null 2>&1 || exit 2; fi
 cd "$WT" || exit 2
